@@ -34,6 +34,8 @@ const (
 )
 
 type c18TmrChain struct {
+	chainID string
+	first   int64
 	t0   time.Time
 	pvs  []mock.PV
 	vals []*tmtypes.Validator
@@ -51,7 +53,14 @@ func (c *c18TmrChain) set(idx ...int) *tmtypes.ValidatorSet {
 }
 
 func newC18TmrChain(t0 time.Time) *c18TmrChain {
-	c := &c18TmrChain{t0: t0, sets: map[int64]*tmtypes.ValidatorSet{}, hdr: map[int64]*xibctmtypes.Header{}}
+	return newC18TmrChainAt(c18TmrChainID, c18TmrFirst, c18TmrLast-c18TmrFirst+1, t0, nil)
+}
+
+// `count` headers of chain `chainID` from height `first`, 5 s apart from t0; the validator set changes with every
+// block; appHash (when given) is the application hash every header carries — a real root of the live counterparty, so
+// that genuine ICS-23 proofs of that chain verify against the consensus states of this synthetic one
+func newC18TmrChainAt(chainID string, first int64, count int, t0 time.Time, appHash []byte) *c18TmrChain {
+	c := &c18TmrChain{chainID: chainID, first: first, t0: t0, sets: map[int64]*tmtypes.ValidatorSet{}, hdr: map[int64]*xibctmtypes.Header{}}
 	for i := 0; i < 6; i++ {
 		pv := mock.NewPV()
 		pk, err := pv.GetPubKey()
@@ -62,10 +71,11 @@ func newC18TmrChain(t0 time.Time) *c18TmrChain {
 		c.vals = append(c.vals, tmtypes.NewValidator(pk, 1))
 	}
 	members := [][]int{{0}, {1, 2}, {2, 3, 4}, {0, 3}, {1, 4, 5}, {5}, {0, 1, 2, 3}, {2, 4}, {3, 5, 0}, {1}}
-	for h := int64(c18TmrFirst); h <= c18TmrLast+1; h++ {
-		c.sets[h] = c.set(members[h-c18TmrFirst]...)
+	last := first + int64(count) - 1
+	for h := first; h <= last+1; h++ {
+		c.sets[h] = c.set(members[int(h-first)%len(members)]...)
 	}
-	for h := int64(c18TmrFirst); h <= c18TmrLast; h++ {
+	for h := first; h <= last; h++ {
 		vs := c.sets[h]
 		var signers []tmtypes.PrivValidator
 		for _, v := range vs.Validators {
@@ -75,10 +85,14 @@ func newC18TmrChain(t0 time.Time) *c18TmrChain {
 				}
 			}
 		}
-		ts := t0.Add(time.Duration(h-c18TmrFirst) * 5 * time.Second)
+		ts := t0.Add(time.Duration(h-first) * 5 * time.Second)
+		ah := tmhash.Sum([]byte{'a', byte(h)})
+		if appHash != nil {
+			ah = appHash
+		}
 		th := tmtypes.Header{
 			Version:            tmprotoversion.Consensus{Block: version.BlockProtocol, App: 2},
-			ChainID:            c18TmrChainID,
+			ChainID:            chainID,
 			Height:             h,
 			Time:               ts,
 			LastBlockID:        xibctesting.MakeBlockID(make([]byte, tmhash.Size), 10_000, make([]byte, tmhash.Size)),
@@ -87,13 +101,13 @@ func newC18TmrChain(t0 time.Time) *c18TmrChain {
 			ValidatorsHash:     vs.Hash(),
 			NextValidatorsHash: c.sets[h+1].Hash(),
 			ConsensusHash:      tmhash.Sum([]byte("consensus_hash")),
-			AppHash:            tmhash.Sum([]byte{'a', byte(h)}),
+			AppHash:            ah,
 			LastResultsHash:    tmhash.Sum([]byte("last_results_hash")),
 			EvidenceHash:       tmhash.Sum([]byte("evidence_hash")),
 			ProposerAddress:    vs.Proposer.Address, //nolint:staticcheck
 		}
 		blockID := xibctesting.MakeBlockID(th.Hash(), 3, tmhash.Sum([]byte("part_set")))
-		voteSet := tmtypes.NewVoteSet(c18TmrChainID, h, 1, tmproto.PrecommitType, vs)
+		voteSet := tmtypes.NewVoteSet(chainID, h, 1, tmproto.PrecommitType, vs)
 		commit, err := tmtypes.MakeCommit(blockID, h, 1, voteSet, signers, ts)
 		if err != nil {
 			panic(err)
